@@ -1,5 +1,5 @@
 (* C14 — failed transfers in the distributor lose nothing and are made up later. *)
-From C4E Require Import Base Minter Distributor DistrCoins DistrProofs Books Credited.
+From C4E Require Import Base Minter Distributor DistrCoins DistrProofs Books Credited DistrNz Ledger LedgerProofs LedgerExample.
 From C4EProps Require C03.
 Open Scope Z_scope.
 
@@ -83,3 +83,56 @@ Example C14_example :
       | _, _ => False end
   | _, _ => False end.
 Proof. vm_compute. repeat split. Qed.
+
+(* ---------------------------------------------------------------------------------------------------------------
+   "once transfers succeed again every destination ends up with what it would have received without the failures"
+
+   What an account has been credited — its bank balance in 10^-18 units plus the remains recorded for it — is computed by
+   the credited-amounts machine of Ledger.v (a_block: every sub-distributor takes what its sources have been credited and
+   credits the truncated shares), and the real BeginBlock refines that machine whatever payouts and burns fail
+   (LedgerProofs.ledger_refinement).  Hence: *)
+
+(* two runs of the same history of inflows and blocks that differ only in which payouts and burns fail end, after every
+   prefix, with exactly the same credited amount for every account of the configuration, for the burn, and the same unbooked
+   remainder.  Hypotheses: the account universe has no alias of the main account (not K2) and no identifier shared by
+   accounts of different types (not K4); MAIN, when a source, is listed first (not K1, part of sd_full_ok); the sweeps of
+   the sources do not fail (a failed sweep postpones the collection, which legitimately changes what later blocks
+   distribute: finding K11 and the vesting-locked sources of the generator). *)
+Theorem C14_failures_never_change_what_an_account_is_credited :
+  forall Acct bk, acct_universe Acct bk -> forall ops ops' w (st : Z -> aled),
+  lwinv Acct bk w -> Forall (lop_ok Acct) ops -> Forall (lop_ok Acct) ops' -> Forall2 same_but_faults ops ops' ->
+  (forall d, LRep Acct bk d (st d) w) ->
+  exists w1 w2, lrun w ops = Ok w1 /\ lrun w ops' = Ok w2 /\
+    forall d, (forall a, Acct a -> ledA a (dw_states w1) (wbank w1) d = ledA a (dw_states w2) (wbank w2) d) /\
+              ledB bk (dw_states w1) (wbank w1) d = ledB bk (dw_states w2) (wbank w2) d /\
+              unbooked (dw_states w1) (wbank w1) d = unbooked (dw_states w2) (wbank w2) d.
+Proof. exact ledger_independent_of_failures. Qed.
+Print Assumptions C14_failures_never_change_what_an_account_is_credited.
+
+(* and once the account's last payout went through in both runs (less than one unit left in its recorded remains), the two
+   balances are equal — exactly *)
+Theorem C14_settled_balances_agree :
+  forall a sts1 b1 sts2 b2 d, da_type a <> T_INTERNAL -> ledA a sts1 b1 d = ledA a sts2 b2 d ->
+  0 <= remk (da_key a) d sts1 < P -> 0 <= remk (da_key a) d sts2 < P ->
+  dc_amt d (bal_of (bk_bal b1) (da_addr a)) = dc_amt d (bal_of (bk_bal b2) (da_addr a)).
+Proof. exact settled_balances_agree. Qed.
+Print Assumptions C14_settled_balances_agree.
+
+(* the block-level statement: any failure pattern in the payout phase, the block completes and the world's credited
+   amounts are those of the machine *)
+Theorem C14_block_refines_credited_amounts_machine :
+  forall Acct bk, acct_universe Acct bk -> forall ops w (st : Z -> aled),
+  lwinv Acct bk w -> Forall (lop_ok Acct) ops -> (forall d, LRep Acct bk d (st d) w) ->
+  exists w', lrun w ops = Ok w' /\ lwinv Acct bk w' /\ dw_subs w' = dw_subs w /\ forall d, LRep Acct bk d (a_run (dw_subs w) d (st d) ops) w'.
+Proof. exact ledger_refinement. Qed.
+Print Assumptions C14_block_refines_credited_amounts_machine.
+
+(* non-vacuity: a configuration, a world and two histories (the first block's payouts all fail in one of them) that satisfy
+   all hypotheses; after the second block both runs hold the same balances *)
+Theorem C14_example_failing_payouts_are_made_up :
+  exists w1 w2, lrun xworld xops1 = Ok w1 /\ lrun xworld xops2 = Ok w2 /\
+    (exists v1 v2, lrun xworld [LBlock [true; true]] = Ok v1 /\ lrun xworld [LBlock []] = Ok v2 /\ dw_bal v1 <> dw_bal v2) /\
+    dw_bal w1 = dw_bal w2 /\ dw_burned w1 = dw_burned w2 /\
+    forall d a, XAcct a -> ledA a (dw_states w1) (wbank w1) d = ledA a (dw_states w2) (wbank w2) d.
+Proof. exact failing_payouts_are_made_up. Qed.
+Print Assumptions C14_example_failing_payouts_are_made_up.
